@@ -546,6 +546,11 @@ func checkTyped(r *hx.Rng, i int) {
 		}
 		hygPayload("136", pl, nil, 0, sei.HEVCPicTimingParams{})
 		hygPayload("136", malformed(pl), nil, 0, sei.HEVCPicTimingParams{})
+		// ANY value (C17_size_any_value): fields wider than their code, junk in absent fields, 4-6 clocks
+		nc := genTimeCode(r, false)
+		if sz, pl, wc := tryPayload(nc); wc != "ok" || sz != uint(len(pl)) {
+			fail("sei.TimeCodeSEI.Size", "size-differs-any-value", clocksString(nc.Clocks), fmt.Sprintf("Size()=%d, Payload(): %s, %d bytes", sz, wc, len(pl)))
+		}
 	case 1:
 		tolen := byte(pickU(r, 31))
 		pt := genPicTiming(r, true, r.Bool(), tolen)
@@ -564,6 +569,11 @@ func checkTyped(r *hx.Rng, i int) {
 		}
 		hygPayload("1", pl, pt.CbpDbpDelay, tolen, sei.HEVCPicTimingParams{})
 		hygPayload("1", malformed(pl), pt.CbpDbpDelay, tolen, sei.HEVCPicTimingParams{})
+		// ANY value (C17_size_any_value): any pict_struct / clock count, clocks with another time-offset length, wide delays
+		nc := genPicTiming(r, false, r.Bool(), byte(pickU(r, 31)))
+		if sz, pl, wc := tryPayload(nc); wc != "ok" || sz != uint(len(pl)) {
+			fail("sei.PicTimingAvcSEI.Size", "size-differs-any-value", ptString(nc), fmt.Sprintf("Size()=%d, Payload(): %s, %d bytes", sz, wc, len(pl)))
+		}
 	case 2:
 		m := genMdcv(r)
 		sz, pl, wc := tryPayload(m)
